@@ -101,6 +101,8 @@ def build(t):
         return build(t[1]) == build(t[2])
     if op == "bne":
         return build(t[1]) != build(t[2])
+    if op == "anno":
+        return build(t[2])
     raise ValueError(f"sem_z3.build: {op}")
 
 
